@@ -8,6 +8,7 @@
 //	add P | remove P PARK | start | stop J | resume          service operations (J/PARK: where to park in handler.stop())
 //	conn P 0|1 | notify P conn|disc                         environment
 //	run J start|stop | fire J | dial J | ret J ok|fail      one goroutine step of handler J
+//	list                                                     ListPeers (sorted)
 //	backoff D                                                call the real nextBackoff once from nextDelay = D
 package main
 
@@ -16,6 +17,7 @@ import (
 	"errors"
 	"fmt"
 	"runtime"
+	"sort"
 	"strconv"
 	"strings"
 	"sync"
@@ -642,6 +644,21 @@ func exec(c vh.Case, o *vh.Out) {
 				break
 			}
 			o.Kind("ret-" + f[2])
+		case "list":
+			if busy {
+				res = "disabled"
+				break
+			}
+			var ps []string
+			for _, ai := range r.ps.ListPeers() {
+				ps = append(ps, fmt.Sprintf("p%d", r.peerIdx(ai.ID)))
+			}
+			sort.Strings(ps)
+			o.Kind("list")
+			s := r.summary()
+			r.monitor()
+			o.Emit("%s [%s] %s", res, strings.Join(ps, ","), s)
+			continue
 		case "backoff":
 			d, _ := strconv.ParseInt(f[1], 10, 64)
 			got := int64(peering.VerifBackoff(time.Duration(d)))
